@@ -452,6 +452,9 @@ def _call(loop, f, *a, **k):
     return r
 
 
+_BLOCKED_BEFORE = [False]
+
+
 def impl_survivor(case):
     """case: flat machine, deterministic env (bycb), history, 'cls', 'queued', 'crash_cb', 'crash_exn', 'split'.
     Machine A runs history[:split] where the FIRST invocation of callback crash_cb raises; then both A (the
@@ -510,7 +513,9 @@ def impl_survivor(case):
                 box['r'] = run(wa, a, case['history'][case['split']:])
             th = threading.Thread(target=other, daemon=True)
             th.start()
-            th.join(8)
+            th.join(3 if _BLOCKED_BEFORE[0] else 45)     # generous once (loaded host), short after a first real block
+            if 'r' not in box:
+                _BLOCKED_BEFORE[0] = True
             cont_a = box.get('r', 'another thread blocks forever on the survivor')
         else:
             cont_a = run(wa, a, case['history'][case['split']:])
